@@ -28,6 +28,28 @@ type rfSched struct {
 	K   int    `json:"k"`
 }
 
+// recvBuf: a bytes.Buffer refilled from pending segments when it runs empty (a connection's receive buffer)
+type recvBuf struct {
+	bytes.Buffer
+	pending [][]byte
+}
+
+func (r *recvBuf) Read(p []byte) (int, error) {
+	if r.Buffer.Len() == 0 && len(r.pending) > 0 {
+		r.Buffer.Write(r.pending[0])
+		r.pending = r.pending[1:]
+	}
+	return r.Buffer.Read(p)
+}
+
+func (r *recvBuf) left() int {
+	n := r.Buffer.Len()
+	for _, s := range r.pending {
+		n += len(s)
+	}
+	return n
+}
+
 // schedSrc is SrcRead of ReaderFaults.tla.
 type schedSrc struct {
 	b      []byte
@@ -401,7 +423,7 @@ func rfRun(args []string) error {
 			}
 			// other kinds of source the code may special-case (type switches, fast paths): the same bytes behind a *bytes.Buffer
 			// whose backing array has spare capacity (filled with plausible continuation bytes), a *bytes.Reader, a *bufio.Reader
-			for _, kind := range []string{"bytes.Buffer+cap", "bytes.Buffer", "bytes.Reader", "bufio.Reader"} {
+			for _, kind := range []string{"bytes.Buffer+cap", "bytes.Buffer", "bytes.Reader", "bufio.Reader", "recvbuf16", "recvbuf100", "recvbuf1460"} {
 				var rd io.Reader
 				var pos func() int
 				switch kind {
@@ -419,6 +441,19 @@ func rfRun(args []string) error {
 				case "bytes.Reader":
 					br := bytes.NewReader(in.b)
 					rd, pos = br, func() int { return len(in.b) - br.Len() }
+				case "recvbuf16", "recvbuf100", "recvbuf1460":
+					// a receive buffer: a bytes.Buffer (so the type has Len, Bytes, WriteTo ...) refilled segment by segment; what
+					// its methods report concerns the buffered part only, more arrives later
+					seg := map[string]int{"recvbuf16": 16, "recvbuf100": 100, "recvbuf1460": 1460}[kind]
+					rb := &recvBuf{}
+					for o := 0; o < len(in.b); o += seg {
+						e := o + seg
+						if e > len(in.b) {
+							e = len(in.b)
+						}
+						rb.pending = append(rb.pending, in.b[o:e])
+					}
+					rd, pos = rb, func() int { return len(in.b) - rb.left() }
 				default:
 					br := bytes.NewReader(in.b)
 					rd, pos = bufio.NewReaderSize(br, 16), func() int { return -1 }
